@@ -2,7 +2,6 @@ package main
 
 import (
 	"fmt"
-	"strings"
 
 	"golang.org/x/tools/go/ssa"
 )
@@ -15,12 +14,15 @@ import (
 // matches AND the port is equal; an applying negated pattern rejects the line
 // wherever it stands; otherwise the line matches iff some applying pattern is
 // positive. A negated pattern for another port does not apply.
-func c42PatternTable(c *Ctx) {
+//
+// Returns the wildcard matcher(s) the list matcher consults, for c42Wildcard.
+func c42PatternTable(c *Ctx) []*ssa.Function {
 	f := c.fn("ssh/knownhosts", "(hostPatterns).match")
 	if f == nil {
-		return
+		return nil
 	}
 	psP, aP := f.Params[0], f.Params[1]
+	oracle := map[string]*ssa.Function{}
 	cases, bad := 0, ""
 	for n := 0; n <= 2 && bad == ""; n++ {
 		combos := 1
@@ -49,27 +51,34 @@ func c42PatternTable(c *Ctx) {
 					w.state[pre+".addr.port"] = 2222
 				}
 			}
+			// helpers of the package (hostPattern.match or whatever the list
+			// matcher is split into) are interpreted in place; the wildcard
+			// matcher is the oracle. It is recognised by its role — the function
+			// of the package that is handed a pattern's host and the queried host —
+			// and is never interpreted here (it has its own table).
 			w.inline = func(callee *ssa.Function) bool {
-				return strings.HasSuffix(callee.String(), "hostPattern).match")
+				return callee.Pkg == f.Pkg && !c42GlobShape(callee)
 			}
 			problem := ""
 			w.onCall = func(w *pathWalker, ci ssa.CallInstruction) string {
 				cc := ci.Common()
-				if !strings.HasSuffix(short(calleeName(cc)), "knownhosts.wildcardMatch") {
+				callee := cc.StaticCallee()
+				val, isVal := ci.(ssa.Value)
+				if callee == nil || callee.Pkg != f.Pkg || len(cc.Args) != 2 || !isVal || val.Type().String() != "bool" {
 					return ""
 				}
 				pid, ok1 := w.env.eval(stripConv(cc.Args[0]))
 				sid, ok2 := w.env.eval(stripConv(cc.Args[1]))
-				if !ok1 || !ok2 || sid != 7 {
-					problem = "wildcardMatch is not called with (pattern host, queried host)"
+				if !ok1 || !ok2 {
 					return ""
 				}
 				idx, known := hostID[pid]
-				if !known {
-					problem = "wildcardMatch called with an unknown pattern"
+				if sid != 7 || !known {
+					problem = callee.Name() + " is not called with (pattern host, queried host)"
 					return ""
 				}
-				w.env.bind(ci.(ssa.Value), b2i(hostM[idx]))
+				oracle[callee.Name()] = callee
+				w.env.bind(val, b2i(hostM[idx]))
 				return ""
 			}
 			end := w.walk(f.Blocks[0], nil)
@@ -100,6 +109,26 @@ func c42PatternTable(c *Ctx) {
 		}
 	}
 	c.check(bad == "" && cases == 73, "C42.pattern-table", "(hostPatterns).match decision table", f, fmt.Sprintf("%d pattern-list assignments (0-2 patterns x negate x host-match x port-equal) agree with OpenSSH's host-pattern semantics", cases), bad)
+	var out []*ssa.Function
+	for _, g := range oracle {
+		out = append(out, g)
+	}
+	return out
+}
+
+// c42GlobShape: a plain function of two strings / byte slices to bool — the
+// shape of the wildcard matcher, which the pattern table treats as an oracle.
+func c42GlobShape(f *ssa.Function) bool {
+	sig := f.Signature
+	if sig.Recv() != nil || sig.Params().Len() != 2 || sig.Results().Len() != 1 || sig.Results().At(0).Type().String() != "bool" {
+		return false
+	}
+	for i := 0; i < 2; i++ {
+		if t := sig.Params().At(i).Type().String(); t != "[]byte" && t != "string" {
+			return false
+		}
+	}
+	return true
 }
 
 func describePatterns(neg, hostM, portEq []bool) []string {
